@@ -139,6 +139,17 @@ def gen_plan(rng, index, tier):
     cfg["sharedDict"] = rng.random() < 0.4
     cfg["pinDetail"] = rng.choice([None, None, "pin", "detail", "both"])
     cfg["linked"] = rng.random() < 0.6
+    if rng.random() < 0.25:
+        # an inner dimension that starts at nothing (a solid pin, an unbored plate) ...
+        zeroed = [k for k in ("id", "ip", "lengthInner", "widthInner") if k in dims]
+        if zeroed:
+            for k in zeroed:
+                dims[k] = 0.0
+            cfg["zeroInner"] = True
+    if cfg["linked"] and rng.random() < 0.4:
+        # the companion's multiplicity follows the component's; the component's changes along the way
+        cfg["linkMult"] = True
+        steps.insert(rng.randrange(1, len(steps) + 1), {"op": "setmult", "mult": rng.choice([3, 19, 61])})
     if cfg["linked"] and rng.random() < 0.35:
         steps.insert(rng.randrange(0, max(1, len(steps) - 1)), {"op": "freeze"})
     if cfg["linked"] and rng.random() < 0.5:
@@ -215,7 +226,7 @@ def execute(plan):
 
         d0 = te_dims[0]
         # a dimension linked to another component, declared the way blueprints do ("name.dim")
-        companion = Circle("linked", "HT9", Tinput=25.0, Thot=25.0, od=1000.0, id=f"c.{d0}", mult=1)
+        companion = Circle("linked", "HT9", Tinput=25.0, Thot=25.0, od=1000.0, id=f"c.{d0}", mult="c.mult" if cfg.get("linkMult") else 1)
         companion.resolveLinkedDims({"c": c})
         # ... and a third one linked to the companion's linked dimension (a chain of two links)
         film = Circle("film", "HT9", Tinput=25.0, Thot=25.0, od=2000.0, id="linked.id", mult=1)
@@ -302,6 +313,10 @@ def execute(plan):
                     fail("C03.link", f"{tag}: dimension linked to {te_dims[0]} reads {got}, the target's current value is {want}", what="link")
                 else:
                     fail("C03.setdim", f"{tag}: a dimension that was given its own value {want} (in place of a link) reads {got}", what="unlinked-value")
+            if cfg.get("linkMult"):
+                gm, wm = float(companion.getDimension("mult")), float(c.getDimension("mult"))
+                if gm != wm:
+                    fail("C03.link", f"{tag}: the multiplicity linked to the component's reads {gm}, the component's is {wm}", what="link-mult")
             got2 = float(film.getDimension("id"))
             if not rel(got2, got):
                 fail("C03.link", f"{tag}: a dimension linked to the companion's dimension reads {got2}, the companion's current value is {got}", what="chain")
@@ -338,6 +353,13 @@ def execute(plan):
             probes["factor_queries"] = probes.get("factor_queries", 0) + 1
             log.add("factor", st["T0"], Tc)
             check(f"step {k} (after asking for the factor from {st['T0']} C)")
+        elif st["op"] == "setmult":
+            c.setDimension("mult", st["mult"])
+            probes["multiplicity_changed_under_a_link"] = 1
+            log.add("setmult", st["mult"])
+            mph_ref[0] = mass_per_height(c) if nonzero else None
+            cold_changed = True
+            check(f"step {k} (after the multiplicity was changed)")
         elif st["op"] == "freeze":
             # the companion's linked dimension is given a value of its own: exactly what it reads now
             if companion is None or frozen[0] is not None:
@@ -384,6 +406,12 @@ def execute(plan):
                 cold[d] = newv
             else:
                 newv = float(c.getDimension(d)) * st["factor"]
+                if newv == 0.0:
+                    # the dimension holds nothing yet: it gets a hot value of its own (a bore a quarter of the largest dimension)
+                    newv = 0.25 * max(float(c.getDimension(x)) for x in te_dims) * st["factor"]
+                    if not keeps_geometry_valid(d, newv, False):
+                        continue
+                    probes["hot_value_for_a_dimension_that_was_zero"] = 1
                 c.setDimension(d, newv, cold=False)
                 got = float(c.getDimension(d))
                 if not rel(got, newv):
@@ -394,7 +422,7 @@ def execute(plan):
             log.add("setdim", d, st["factor"], st["cold"])
             check(f"step {k} (after setDimension)")
     # path independence: a fresh identical component taken along another path to the same end temperature
-    if not any(s["op"] in ("setdim", "setdim_link") for s in plan["steps"]):  # ("factor" steps change nothing)
+    if not any(s["op"] in ("setdim", "setdim_link", "setmult") for s in plan["steps"]):  # ("factor" steps change nothing)
         c2 = build(cfg, "c2")
         if probes.get("explicit_composition"):
             c2.setNumberDensities({"FE56": 0.04, "NI58": 0.011})
